@@ -581,7 +581,7 @@ class World:
         o = objs[(r1 // 16) % len(objs)]
         ms = [m for m in self.proto[o.iface].requests if m.name in ('set_app_id', 'set_title')]
         m = ms[r2 % len(ms)]
-        args = [GArg('s', self.APP_ID_VALUES[r1 % len(self.APP_ID_VALUES)], name=m.args[0].name)]
+        args = [GArg('s', self.APP_ID_VALUES[r1 % len(self.APP_ID_VALUES)], name=m.args[0].name)] if m.args else []
         return self._emit(c, False, o, m.name, m.opcode, args, m.signature())
 
 
@@ -595,6 +595,7 @@ CHATTER_TEMPLATES = [
     'error: (null) [12] {brace} <5>', '-> arrow', ' -> wl_display', '[abc.def] wl_x@1.y()',
     '[ 12.5 ] not@msg', 'Ünïcödé → text ✓', '    indented line   ', '100%', 'a.b(c)', '[1.2]',
     '[1.2] wl_display@.sync()', '[1.2] @1.sync()', '[1.2] wl_display@1.()',
+    'col1\tcol2\tcol3', 'a\t\tb', 'x\ty z',
 ]
 
 
